@@ -206,8 +206,18 @@ def rule_block_independence(repo: Repo, rep: Report) -> int:
     tainted = set()
     changed = True
 
+    ci = repo.cls(AN, "FlatFadingChannel")
+
     def is_draw(c):
-        return isinstance(c, ast.Call) and (call_name(c) or "").split(".")[-1] in DRAWS
+        if not isinstance(c, ast.Call):
+            return False
+        if (call_name(c) or "").split(".")[-1] in DRAWS:
+            return True
+        ch = attr_chain(c.func) or ""
+        if ch.startswith("self.") and ch.count(".") == 1:
+            m = ci.find_method(ch.split(".")[1])
+            return m is not None and m is not fi and any(isinstance(x, ast.Call) and (call_name(x) or "").split(".")[-1] in DRAWS for x in ast.walk(m.node))
+        return False
 
     def mentions(e):
         return any(is_draw(x) or (isinstance(x, ast.Name) and x.id in tainted) for x in ast.walk(e))
@@ -224,7 +234,7 @@ def rule_block_independence(repo: Repo, rep: Report) -> int:
                             tainted.add(x.id)
                             changed = True
     n_draws = sum(1 for c in ast.walk(fi.node) if is_draw(c))
-    rep.floor("random draws in _generate_fading_coefficients", n_draws, 4)
+    rep.floor("random draws in _generate_fading_coefficients", n_draws, 2)
     mixing = []
     for c in ast.walk(fi.node):
         if isinstance(c, ast.Call):
